@@ -15,7 +15,7 @@ def run(payload):
     fails, cases = [], 0
 
     def fail(kind, **kw):
-        if len(fails) < 8:
+        if sum(1 for f_ in fails if f_["id"] == kind) < 3:  # a few witnesses per kind; one kind never crowds out another
             fails.append({"id": kind, **kw})
 
     for _ in range(payload.get("n", 3)):
